@@ -1,12 +1,588 @@
-//! C12 - not built yet.
-use crate::run::Ctx;
-use serde_json::Value;
+//! C12 - parsers accept exactly the Temporal grammar of their type.
+//!
+//! Differential against `c12::grammar` (independent recursive-descent recognisers, DESIGN.md Appendix B):
+//! for every string s and parser P: `P(s)` is Ok iff the reference accepts, the value equals the value the
+//! grammar assigns, and a rejection is an `Err` of kind Range (never a panic).
 
-pub fn run(_ctx: &mut Ctx) {
-    eprintln!("property C12 has no check yet");
-    std::process::exit(2);
+pub mod gen;
+pub mod grammar;
+
+use crate::conv::*;
+use crate::run::*;
+use crate::tzp::TableProvider;
+use grammar::{Opts, Ref, Tz, Value, Verdict};
+use serde::{Deserialize, Serialize};
+use serde_json::{json, Value as Json};
+use std::str::FromStr;
+use std::sync::OnceLock;
+use temporal_rs::error::ErrorKind;
+use temporal_rs::options::{Disambiguation, OffsetDisambiguation, RelativeTo};
+use temporal_rs::{
+    Calendar, Duration, Instant, MonthCode, PlainDate, PlainDateTime, PlainMonthDay, PlainTime, PlainYearMonth,
+    TemporalError, TimeZone, UtcOffset, ZonedDateTime,
+};
+
+pub const NPARSERS: usize = 14;
+pub const PARSERS: [&str; NPARSERS] = [
+    "PlainDate",
+    "PlainDateTime",
+    "PlainTime",
+    "PlainYearMonth",
+    "PlainMonthDay",
+    "Instant",
+    "Duration",
+    "UtcOffset",
+    "MonthCode",
+    "Calendar",
+    "TimeZone.identifier",
+    "TimeZone.str",
+    "ZonedDateTime",
+    "RelativeTo",
+];
+const PARSER_LABELS: [&str; NPARSERS] = [
+    "p:PlainDate",
+    "p:PlainDateTime",
+    "p:PlainTime",
+    "p:PlainYearMonth",
+    "p:PlainMonthDay",
+    "p:Instant",
+    "p:Duration",
+    "p:UtcOffset",
+    "p:MonthCode",
+    "p:Calendar",
+    "p:TimeZone.identifier",
+    "p:TimeZone.str",
+    "p:ZonedDateTime",
+    "p:RelativeTo",
+];
+pub const P_DATE: usize = 0;
+pub const P_DATETIME: usize = 1;
+pub const P_TIME: usize = 2;
+pub const P_YM: usize = 3;
+pub const P_MD: usize = 4;
+pub const P_INSTANT: usize = 5;
+pub const P_DURATION: usize = 6;
+pub const P_OFFSET: usize = 7;
+pub const P_MONTHCODE: usize = 8;
+pub const P_CALENDAR: usize = 9;
+pub const P_TZID: usize = 10;
+pub const P_TZSTR: usize = 11;
+pub const P_ZONED: usize = 12;
+pub const P_RELTO: usize = 13;
+
+/// zones served by the harness provider to ZonedDateTime / RelativeTo (all constant offsets)
+const ZONES: [(&str, i64); 3] = [("UTC", 0), ("Etc/GMT+5", -18000), ("Asia/Kolkata", 19800)];
+
+fn provider() -> &'static TableProvider {
+    static P: OnceLock<TableProvider> = OnceLock::new();
+    P.get_or_init(|| TableProvider::new(ZONES.iter().map(|(n, o)| crate::refm::tz::Zone::fixed(n, *o)).collect()))
+}
+fn zone_offset_s(name: &str) -> Option<i64> {
+    ZONES.iter().find(|(n, _)| n.eq_ignore_ascii_case(name)).map(|(_, o)| *o)
 }
 
-pub fn replay(_ctx: &mut Ctx, _sub: &str, _case: &Value) -> bool {
-    false
+// ---------------------------------------------------------------------------------------------
+// the two sides
+
+pub fn reference(p: usize, s: &str, opts: Opts) -> Ref {
+    match p {
+        P_DATE => grammar::plain_date(s, opts),
+        P_DATETIME => grammar::plain_date_time(s, opts),
+        P_TIME => grammar::plain_time(s, opts),
+        P_YM => grammar::plain_year_month(s, opts),
+        P_MD => grammar::plain_month_day(s, opts),
+        P_INSTANT => grammar::instant(s, opts),
+        P_DURATION => grammar::duration(s, opts),
+        P_OFFSET => grammar::utc_offset(s, opts),
+        P_MONTHCODE => grammar::month_code(s),
+        P_CALENDAR => grammar::calendar_string(s, opts),
+        P_TZID => grammar::tz_identifier(s, opts),
+        P_TZSTR => grammar::tz_string(s, opts),
+        P_ZONED => grammar::zoned(s, &zone_offset_s, opts),
+        P_RELTO => grammar::relative_to(s, &zone_offset_s, opts),
+        _ => unreachable!("parser index"),
+    }
+}
+
+fn tz_of(t: &TimeZone) -> Result<Tz, TemporalError> {
+    Ok(match t {
+        TimeZone::IanaIdentifier(s) => Tz::Name(s.clone()),
+        TimeZone::UtcOffset(o) => Tz::Offset(offset_minutes(o)?),
+    })
+}
+/// `UtcOffset` exposes its value only as text "+HH:MM"
+fn offset_minutes(o: &UtcOffset) -> Result<i32, TemporalError> {
+    let t = o.to_string()?;
+    let b = t.as_bytes();
+    let ok = b.len() == 6 && (b[0] == b'+' || b[0] == b'-') && b[3] == b':' && [1, 2, 4, 5].iter().all(|i| b[*i].is_ascii_digit());
+    if !ok {
+        return Err(TemporalError::general("harness: unexpected UtcOffset text"));
+    }
+    let v = ((b[1] - b'0') as i32 * 10 + (b[2] - b'0') as i32) * 60 + (b[4] - b'0') as i32 * 10 + (b[5] - b'0') as i32;
+    Ok(if b[0] == b'-' { -v } else { v })
+}
+fn zoned_value(z: &ZonedDateTime) -> Result<Value, TemporalError> {
+    Ok(Value::Zoned { ns: Some(z.epoch_nanoseconds().as_i128()), tz: tz_of(z.timezone())?, cal: z.calendar().identifier().to_string() })
+}
+fn date_value(d: &PlainDate) -> Value {
+    Value::Date { y: d.iso_year() as i64, m: d.iso_month(), d: d.iso_day(), cal: d.calendar().identifier().to_string() }
+}
+
+pub fn actual(p: usize, s: &str) -> Result<Value, TemporalError> {
+    Ok(match p {
+        P_DATE => date_value(&PlainDate::from_str(s)?),
+        P_DATETIME => {
+            let d = PlainDateTime::from_str(s)?;
+            Value::DateTime {
+                y: d.iso_year() as i64,
+                m: d.iso_month(),
+                d: d.iso_day(),
+                ns: dt_of(&d).ns,
+                cal: d.calendar().identifier().to_string(),
+            }
+        }
+        P_TIME => Value::Time { ns: time_ns(&PlainTime::from_str(s)?) },
+        P_YM => {
+            let d = PlainYearMonth::from_str(s)?;
+            Value::YearMonth { y: d.iso_year() as i64, m: d.iso_month(), cal: d.calendar().identifier().to_string() }
+        }
+        P_MD => {
+            let d = PlainMonthDay::from_str(s)?;
+            Value::MonthDay { m: d.iso_month(), d: d.iso_day(), ref_year: d.iso_year() as i64, cal: d.calendar().identifier().to_string() }
+        }
+        P_INSTANT => Value::Instant(Instant::from_str(s)?.as_i128()),
+        P_DURATION => {
+            let d = Duration::from_str(s)?;
+            let f = duration_fields(&d);
+            let mut o = [0i128; 10];
+            for i in 0..10 {
+                o[i] = f[i] as i128;
+            }
+            Value::Duration(o)
+        }
+        P_OFFSET => Value::Offset(offset_minutes(&UtcOffset::from_str(s)?)?),
+        P_MONTHCODE => Value::MonthCode(MonthCode::from_str(s)?.as_str().to_string()),
+        P_CALENDAR => Value::Calendar(Calendar::from_str(s)?.identifier().to_string()),
+        P_TZID => Value::TimeZone(tz_of(&TimeZone::try_from_identifier_str(s)?)?),
+        P_TZSTR => Value::TimeZone(tz_of(&TimeZone::try_from_str(s)?)?),
+        P_ZONED => zoned_value(&ZonedDateTime::from_str_with_provider(s, Disambiguation::Compatible, OffsetDisambiguation::Reject, provider())?)?,
+        P_RELTO => match RelativeTo::try_from_str_with_provider(s, provider())? {
+            RelativeTo::PlainDate(d) => date_value(&d),
+            RelativeTo::ZonedDateTime(z) => zoned_value(&z)?,
+        },
+        _ => unreachable!("parser index"),
+    })
+}
+
+/// equality of the compared part of two values (expected first)
+pub fn values_match(e: &Value, a: &Value) -> bool {
+    fn tz_eq(a: &Tz, b: &Tz) -> bool {
+        match (a, b) {
+            (Tz::Name(x), Tz::Name(y)) => x.eq_ignore_ascii_case(y),
+            _ => a == b,
+        }
+    }
+    match (e, a) {
+        (Value::Zoned { ns: en, tz: et, cal: ec }, Value::Zoned { ns: an, tz: at, cal: ac }) => {
+            (en.is_none() || en == an) && tz_eq(et, at) && ec == ac
+        }
+        (Value::TimeZone(x), Value::TimeZone(y)) => tz_eq(x, y),
+        _ => e == a,
+    }
+}
+
+// ---------------------------------------------------------------------------------------------
+// defect models: narrow explanations of a disagreement.
+//
+// A model is the reference grammar with ONE deliberate deviation switched on (`grammar::RX_*`). A failing
+// case gets the model's signature only if the implementation's result (accept + value, or reject) is
+// exactly what the reference-with-that-deviation predicts. A case that needs several listed deviations
+// at once gets the `combination-of-listed-models` signature of its scope; anything else keeps the
+// generic signature (accept-invalid / reject-valid / value-mismatch).
+
+/// IANA-name shape if `Alpha` is read as "Unicode alphabetic" (what `char::is_alphabetic` accepts)
+fn is_unicode_alpha_name(s: &str) -> bool {
+    let lead = |c: char| c.is_alphabetic() || c == '.' || c == '_';
+    !s.is_empty()
+        && !s.is_ascii()
+        && s.split('/').all(|comp| {
+            let mut it = comp.chars();
+            it.next().is_some_and(lead) && it.all(|c| lead(c) || c.is_ascii_digit() || c == '+' || c == '-')
+        })
+}
+
+pub fn is_iso_parser(p: usize) -> bool {
+    matches!(p, P_DATE | P_DATETIME | P_TIME | P_YM | P_MD | P_INSTANT | P_CALENDAR | P_TZSTR | P_ZONED | P_RELTO)
+}
+
+/// where the root cause of model bit `k` lives: "iso" = the layer shared by all ISO-string parsers
+/// (ixdtf + parse_ixdtf), else the parser
+fn scope_of(k: u32, p: usize) -> &'static str {
+    use grammar::*;
+    let bit = 1u32 << k;
+    if bit & (RX_DUR_REPEAT | RX_DUR_EMPTY) != 0 || p == P_DURATION {
+        return "Duration";
+    }
+    if bit & RX_ZONED_OFFSET_MINUTES != 0 {
+        return "zoned"; // the same code in ZonedDateTime::from_str_with_provider and RelativeTo
+    }
+    if bit & (RX_TIME_Z | RX_TIME_DUP_CAL) != 0 {
+        return "tz-or-calendar-string"; // parse_allowed_timezone_formats / parse_allowed_calendar_formats
+    }
+    if bit & (RX_MD_FULL_REJECT | RX_RELTO_Z | RX_SUBMIN_TRUNC) != 0 {
+        return PARSERS[p];
+    }
+    "iso"
+}
+
+fn agrees(p: usize, s: &str, rx: u32, a: &Result<Value, TemporalError>) -> bool {
+    match (reference(p, s, Opts { rx }).verdict, a) {
+        (Verdict::Accept(v), Ok(w)) => values_match(&v, w),
+        (Verdict::Reject, Err(e)) => e.kind() == ErrorKind::Range,
+        // under the model the case falls into a class that is not judged: nothing left to explain
+        (Verdict::Unjudged(_), _) => true,
+        _ => false,
+    }
+}
+
+/// smallest set of model bits under which the reference predicts exactly the implementation's result
+fn explain(p: usize, s: &str, a: &Result<Value, TemporalError>) -> Option<u32> {
+    let n = grammar::RX_COUNT;
+    for i in 0..n {
+        if agrees(p, s, 1 << i, a) {
+            return Some(1 << i);
+        }
+    }
+    for i in 0..n {
+        for j in i + 1..n {
+            let rx = 1 << i | 1 << j;
+            if agrees(p, s, rx, a) {
+                return Some(rx);
+            }
+        }
+    }
+    for i in 0..n {
+        for j in i + 1..n {
+            for k in j + 1..n {
+                let rx = 1 << i | 1 << j | 1 << k;
+                if agrees(p, s, rx, a) {
+                    return Some(rx);
+                }
+            }
+        }
+    }
+    for i in 0..n {
+        for j in i + 1..n {
+            for k in j + 1..n {
+                for l in k + 1..n {
+                    let rx = 1 << i | 1 << j | 1 << k | 1 << l;
+                    if agrees(p, s, rx, a) {
+                        return Some(rx);
+                    }
+                }
+            }
+        }
+    }
+    None
+}
+
+/// models outside the ISO grammar: the crate's own offset / identifier scanner
+fn model_offset_scanner(p: usize, s: &str, a: &Value) -> Option<&'static str> {
+    if !matches!(p, P_OFFSET | P_TZID | P_TZSTR) {
+        return None;
+    }
+    if let Some((minutes, colon, has_min, rest)) = grammar::offset_minute_prefix(s) {
+        let predicted = match p {
+            P_OFFSET => Value::Offset(minutes),
+            _ => Value::TimeZone(Tz::Offset(minutes)),
+        };
+        if *a == predicted {
+            // `rest` is what follows Sign HH [:] [MM]
+            if has_min && !rest.is_empty() {
+                return Some("accept:offset-tail-after-minutes-ignored");
+            }
+            if colon && !has_min && rest.is_empty() {
+                return Some("accept:offset-separator-without-minutes");
+            }
+        }
+    }
+    if p != P_OFFSET && is_unicode_alpha_name(s) && *a == Value::TimeZone(Tz::Name(s.to_string())) {
+        return Some("accept:non-ascii-alphabetic-in-zone-name");
+    }
+    None
+}
+
+/// signature of a disagreement (`dir` = "accept" | "reject" | "value")
+fn signature(p: usize, s: &str, dir: &str, a: &Result<Value, TemporalError>) -> String {
+    let name = PARSERS[p];
+    if is_iso_parser(p) || p == P_DURATION {
+        if let Some(rx) = explain(p, s, a) {
+            if rx.count_ones() == 1 {
+                let k = rx.trailing_zeros();
+                return format!("C12/{}/{dir}:{}", scope_of(k, p), grammar::RX_NAMES[k as usize]);
+            }
+            let scope = if p == P_DURATION { "Duration" } else { "iso" };
+            return format!("C12/{scope}/{dir}:combination-of-listed-models");
+        }
+    }
+    if let Ok(v) = a {
+        if dir == "accept" {
+            if let Some(m) = model_offset_scanner(p, s, v) {
+                let scope = if p == P_OFFSET { "UtcOffset" } else { "TimeZone.identifier" };
+                return format!("C12/{scope}/{m}");
+            }
+        }
+    }
+    match dir {
+        "accept" => format!("C12/{name}/accept-invalid"),
+        "reject" => format!("C12/{name}/reject-valid"),
+        _ => format!("C12/{name}/value-mismatch"),
+    }
+}
+
+// ---------------------------------------------------------------------------------------------
+// the sub-check
+
+#[derive(Serialize, Deserialize, Debug, Clone)]
+pub struct ParseCase {
+    /// parser index into PARSERS
+    pub p: u8,
+    pub s: String,
+    /// generator class index into gen::CLASSES
+    pub g: u8,
+}
+
+pub struct ParseSub(pub &'static str);
+
+pub fn judge(p: usize, s: &str, g: usize) -> Outcome {
+    let r = reference(p, s, Opts::default());
+    let a = actual(p, s);
+    let name = PARSERS[p];
+    let mut o = Outcome::pass().class(PARSER_LABELS[p]).class(gen::CLASSES[g.min(gen::CLASSES.len() - 1)]);
+    for l in &r.labels {
+        o = o.class(l);
+    }
+    o = o.nontrivial(a.is_ok() || matches!(r.verdict, Verdict::Accept(_)));
+    if let Err(e) = &a {
+        o = o.class(match e.kind() {
+            ErrorKind::Range => "err:Range",
+            ErrorKind::Syntax => "err:Syntax",
+            ErrorKind::Type => "err:Type",
+            ErrorKind::Assert => "err:Assert",
+            ErrorKind::Generic => "err:Generic",
+        });
+    }
+    match (&r.verdict, &a) {
+        (Verdict::Unjudged(c), _) => {
+            o.unjudged = true;
+            o = o.class(c);
+        }
+        (Verdict::Accept(e), Ok(v)) => {
+            o = o.class("v:both-accept");
+            if !values_match(e, v) {
+                o = o.fail(signature(p, s, "value", &a), format!("{e:?}"), format!("{v:?}"));
+            }
+        }
+        (Verdict::Accept(e), Err(err)) => {
+            o = o.class("v:reference-accepts-only");
+            let sig = if err.kind() == ErrorKind::Range { signature(p, s, "reject", &a) } else { format!("C12/{name}/reject-valid") };
+            o = o.fail(sig, format!("Ok({e:?})"), err_str(err));
+        }
+        (Verdict::Reject, Ok(v)) => {
+            o = o.class("v:implementation-accepts-only");
+            o = o.fail(signature(p, s, "accept", &a), "Err(Range)", format!("Ok({v:?})"));
+        }
+        (Verdict::Reject, Err(err)) => {
+            o = o.class("v:both-reject");
+            if err.kind() != ErrorKind::Range {
+                o = o.fail(format!("C12/{name}/error-kind:{}", kind_name(err.kind())), "Err(Range)", err_str(err));
+            }
+        }
+    }
+    o
+}
+
+impl SubCheck for ParseSub {
+    type Case = ParseCase;
+    fn name(&self) -> &'static str {
+        self.0
+    }
+    fn eval(&self, c: &ParseCase) -> Outcome {
+        judge((c.p as usize).min(NPARSERS - 1), &c.s, c.g as usize)
+    }
+}
+
+/// Strict differential for a byte-level fuzz target: every parser on the input; `Err` describes the first
+/// disagreement whose signature is not in `known` (panics propagate to the fuzzer).
+pub fn fuzz_one(bytes: &[u8], known: &[&str]) -> Result<(), String> {
+    let Ok(s) = std::str::from_utf8(bytes) else { return Ok(()) };
+    for p in 0..NPARSERS {
+        let o = judge(p, s, gen::G_FUZZ);
+        if let Some(f) = o.fail {
+            if !known.contains(&f.sig.as_str()) {
+                return Err(format!("{} on {:?}: expected {} actual {}", f.sig, s, f.expected, f.actual));
+            }
+        }
+    }
+    Ok(())
+}
+
+// ---------------------------------------------------------------------------------------------
+
+pub fn run(ctx: &mut Ctx) {
+    ctx.rule = "strings x parsers: every case is one (parser, string) pair, 14 parsers (FromStr of PlainDate, PlainDateTime, PlainTime, PlainYearMonth, PlainMonthDay, Instant, Duration, UtcOffset, MonthCode, Calendar; TimeZone::try_from_identifier_str / try_from_str; ZonedDateTime::from_str_with_provider and RelativeTo::try_from_str_with_provider over a harness provider serving UTC, Etc/GMT+5, Asia/Kolkata as constant-offset zones, disambiguation compatible / offset reject). sub-check `probe`: systematic cross products (date x time x offset x bracket suffixes; time-only and short year-month / month-day forms; all 4-digit and DD-DD strings for the ambiguity rule; duration part combinations; offsets incl. every +-HH:MM; month codes; calendar and zone identifiers), each string against all 14 parsers. sub-check `gen`: proptest over an entropy tape: (a) grammar-derived valid strings with every production alternative weighted, (b) 1-3 character edits (substitute/insert/delete/swap/duplicate/truncate) and splices of two valid strings, (c) arbitrary short ASCII / UTF-8 strings; the parser is the string's home parser half of the time, any parser otherwise. non-trivial = at least one of the two sides accepts the string. class labels: parser, generator class, productions used by the reference parse, verdict class, error kind.".into();
+    ctx.assumptions = vec![
+        "oracle: recursive-descent recognisers written from the Temporal grammar (Appendix B), independent of ixdtf; self-tested against accept/reject tables at start".into(),
+        "zoned strings: accept/reject always compared; the instant only when neither Z nor a numeric offset is written (resolution is C13)".into(),
+        "calendar identifiers judged: the 17 CLDR ids the crate documents; aliases / implementation-defined ids unjudged".into(),
+    ];
+    match grammar::self_test() {
+        Ok(n) => ctx.note(format!("grammar self-test: {n} accept/reject examples ok")),
+        Err(e) => {
+            println!("INCONCLUSIVE property=C12 reference grammar self-test failed: {e}");
+            std::process::exit(2);
+        }
+    }
+    ctx.note("unjudged classes (executed under the no-panic oracle, counted, not compared): U+2212 as sign; calendar aliases / implementation-defined ids (iso, islamicc, japanext, islamic-rgsa, ethiopic-amete-alem, gregorian); year-month / month-day from a full date string with a non-ISO calendar; short year-month / month-day form with a non-ISO calendar inside a time-zone or calendar string; sub-minute offset text with zero seconds (UtcOffset, TimeZone identifiers, offsets used as zone by try_from_str); bare `Z` as time-zone identifier; month codes whose number is outside 01..13; zoned strings whose local date is within one day of the limits; zoned / relativeTo strings naming a zone the provider does not serve (availability is zone resolution, C13)");
+
+    let probes = gen::probes();
+    if std::env::var("C12_SURVEY").is_ok() {
+        survey(ctx, &probes);
+        return;
+    }
+    // ---- probes: every probe string against every parser
+    let n = probes.len() as u64 * NPARSERS as u64;
+    ctx.extra.insert("probe_strings".into(), json!(probes.len()));
+    ctx.run_enum(
+        &ParseSub("probe"),
+        n,
+        &|i| {
+            let (si, p) = ((i / NPARSERS as u64) as usize, (i % NPARSERS as u64) as usize);
+            ParseCase { p: p as u8, s: probes[si].clone(), g: gen::G_PROBE as u8 }
+        },
+        false,
+    );
+
+    // ---- generated strings
+    let cases = ctx.tier.pick(4_000_000, 100_000_000);
+    ctx.run_prop(&ParseSub("gen"), &|| gen::strategy(), cases);
+
+    // ---- generator floors: a class the property names must not be starved
+    let mut starved = vec![];
+    let floor = |name: &str, min: u64, starved: &mut Vec<String>| {
+        let n = ctx.stats.classes.get(name).copied().unwrap_or(0);
+        if n < min {
+            starved.push(format!("{name}: {n} < {min}"));
+        }
+    };
+    for l in PARSER_LABELS {
+        floor(l, 50_000, &mut starved);
+    }
+    for g in &gen::CLASSES[..6] {
+        floor(g, 50_000, &mut starved);
+    }
+    for (c, min) in [
+        ("v:both-accept", 100_000u64),
+        ("v:both-reject", 100_000),
+        ("date-basic", 5_000),
+        ("date-extended", 5_000),
+        ("year-signed-6", 5_000),
+        ("sep-T", 5_000),
+        ("sep-t-lower", 5_000),
+        ("sep-space", 5_000),
+        ("time-hh", 2_000),
+        ("time-hhmm", 2_000),
+        ("time-hhmmss", 2_000),
+        ("time-hh:mm", 2_000),
+        ("time-hh:mm:ss", 2_000),
+        ("frac-1", 2_000),
+        ("frac-9", 2_000),
+        ("frac-comma", 2_000),
+        ("second-60", 2_000),
+        ("offset-Z", 2_000),
+        ("offset-z-lower", 2_000),
+        ("offset-hh", 2_000),
+        ("offset-hhmm", 2_000),
+        ("offset-hh:mm", 2_000),
+        ("offset-hhmmss", 2_000),
+        ("offset-hh:mm:ss", 2_000),
+        ("offset-fraction", 2_000),
+        ("zone-name", 2_000),
+        ("zone-offset", 2_000),
+        ("zone-critical", 2_000),
+        ("annotation-calendar", 2_000),
+        ("annotation-other-key", 2_000),
+        ("annotation-critical", 2_000),
+        ("annotation-calendar-duplicate", 2_000),
+        ("short-year-month-extended", 1_000),
+        ("short-year-month-basic", 1_000),
+        ("short-month-day", 1_000),
+        ("short-month-day-dashes", 1_000),
+        ("time-designator", 1_000),
+        ("time-no-designator", 1_000),
+        ("duration-fractional-hours", 500),
+        ("duration-fractional-minutes", 500),
+        ("duration-fractional-seconds", 500),
+        ("duration-negative", 500),
+        ("duration-lowercase-designator", 500),
+        ("monthcode-leap", 500),
+        ("tzid-name", 500),
+        ("tzid-offset", 500),
+        ("calendar-bare-identifier", 500),
+        ("relative-to-zoned", 500),
+        ("relative-to-plain", 500),
+    ] {
+        floor(c, min, &mut starved);
+    }
+    if !starved.is_empty() && ctx.violations.is_empty() {
+        println!("INCONCLUSIVE property=C12 generator starved: {}", starved.join("; "));
+        std::process::exit(2);
+    }
+}
+
+/// development aid (`C12_SURVEY=1`): histogram of all failure signatures over the probes and a sample of
+/// generated cases, with examples; no verdict is derived from it
+fn survey(ctx: &mut Ctx, probes: &[String]) {
+    use proptest::strategy::{Strategy, ValueTree};
+    let mut hist: std::collections::BTreeMap<String, (u64, Vec<String>)> = Default::default();
+    let mut add = |p: usize, s: &str, g: usize| {
+        let o = match guard(|| judge(p, s, g)) {
+            Ok(o) => o,
+            Err(pn) => Outcome::pass().fail(format!("PANIC {}", pn.split(": ").next().unwrap_or("")), "", pn),
+        };
+        if let Some(f) = o.fail {
+            let e = hist.entry(f.sig).or_default();
+            e.0 += 1;
+            if e.1.len() < 6 {
+                e.1.push(format!("{} {:?} => {}", PARSERS[p], s, f.actual));
+            }
+        }
+    };
+    for s in probes {
+        for p in 0..NPARSERS {
+            add(p, s, gen::G_PROBE);
+        }
+    }
+    let n: usize = std::env::var("C12_SURVEY").ok().and_then(|v| v.parse().ok()).unwrap_or(300_000);
+    let strat = gen::strategy();
+    let mut runner = proptest::test_runner::TestRunner::deterministic();
+    for _ in 0..n {
+        let c = strat.new_tree(&mut runner).unwrap().current();
+        add(c.p as usize, &c.s, c.g as usize);
+    }
+    for (sig, (n, ex)) in &hist {
+        println!("{n:>8}  {sig}");
+        for e in ex {
+            println!("            {e}");
+        }
+    }
+    ctx.note("survey mode");
+}
+
+pub fn replay(ctx: &mut Ctx, sub: &str, case: &Json) -> bool {
+    match sub {
+        "probe" => ctx.replay_case(&ParseSub("probe"), case),
+        "gen" => ctx.replay_case(&ParseSub("gen"), case),
+        _ => false,
+    }
 }
